@@ -4,9 +4,9 @@ package main
 // acknowledgement path is fail-stop (failstop.go) or matches a frozen idiom.
 
 import (
-	"os"
 	"fmt"
 	"go/token"
+	"os"
 	"sort"
 	"strings"
 
@@ -35,10 +35,11 @@ func init() { delete(alwaysNilCallee, "fmt.Fprintf") }
 
 // best-effort calls whose failure never affects an acknowledgement
 var bestEffortCallee = map[string]string{
-	"os.Chown":               "ownership is best effort (non-root daemons cannot chown)",
-	"(*os.File).Chown":       "ownership is best effort",
-	"crypto/rand.Read":       "randomises the schema cookie only",
-	"(*os.File).SetDeadline": "",
+	"os.Chown":                  "ownership is best effort (non-root daemons cannot chown)",
+	"(*os.File).Chown":          "ownership is best effort",
+	"crypto/rand.Read":          "randomises the schema cookie only",
+	"(*os.File).SetDeadline":    "",
+	"iface:io.ReadCloser.Close": "closing a stream that was only read from: what was consumed was checked by the read that returned it (a dropped close error loses no data)",
 }
 
 // functions that build an error value (their result is the error, not a failure)
@@ -292,6 +293,18 @@ func errflowCone(c *Ctx, cfg *EFConfig) {
 		name := fnName(fn)
 		if _, skip := cfg.Skip[fnName(root)]; skip {
 			continue
+		}
+		// code extracted from skipped functions only is skipped with them
+		if hosts := helperHosts(fnName(root)); len(hosts) > 0 {
+			all := true
+			for _, h := range hosts {
+				if _, skip := cfg.Skip[h]; !skip {
+					all = false
+				}
+			}
+			if all {
+				continue
+			}
 		}
 		if deferredOnly(fn) {
 			continue // I1: deferred cleanup closure
